@@ -20,6 +20,10 @@ ANCHORS = ["circuit:Circuit.remove_unloaded"]
 
 def gen(rng, ctx):
     big = ctx.tier == "thorough"
+    if rng.random() < (0.004 if big else 0.001) or (ctx.gen_index == 0 and ctx.index < 4):
+        from rv.gen import libnets
+
+        return {"lib": libnets.pick(rng, ctx.tier) if ctx.gen_index else ["c17", "s27", "c432", "mux_4"][ctx.index % 4], "seed": rng.getrandbits(32), "inputs": rng.random() < 0.5, "kind": "lib", "via": "graph", "order": "lib"}
     ni = rng.randint(1, 5)
     ng = rng.randint(1, 8 if not big else 14)
     cd = G.rand_circuit(rng, ni, ng, max_fanin=4, p_const=0.2)
@@ -78,6 +82,22 @@ def gen(rng, ctx):
 
 def check(case, ctx):
     cg = ctx.cg
+    if "lib" in case:
+        import random
+
+        from rv.gen import libnets
+
+        cd = libnets.load(cg, case["lib"])
+        rr = random.Random(case["seed"])
+        # un-mark some outputs: their cones become dead logic
+        outs = [x for x in cd["nodes"] if x[2]]
+        for x in rr.sample(outs, max(1, len(outs) // 2)):
+            x[2] = False
+        if cd["bbs"]:
+            case = dict(case, inputs=False)
+        case = dict(case, c=cd)
+        ctx.cur_case = case
+        ctx.count(f"lib:{case['lib']}")
     cd = case["c"]
     flag = case["inputs"]
     c = G.build(cg, cd, case["via"])
